@@ -27,26 +27,27 @@ Definition pur (w : world) (r : res pyval) (f : pyval -> out) : world * out :=
 
 Section S.
 Variable lower : lbl -> lbl.
+Variable casefold : lbl -> lbl.
 
 Definition gen_step (w : world) (o : op) : world * out :=
   match o with
   | AddTaxon t => eff w (py_add_taxon w (VTaxon t)) v_unit
   | NewTaxon l => eff w (py_new_taxon w (VLabel l)) v_tax
   | NewTaxa ls => eff w (py_new_taxa w (VList (map VLabel ls))) v_taxa
-  | RequireTaxon l cs => eff w (py_require_taxon lower w (VLabel l) (cs_val cs)) v_tax
+  | RequireTaxon l cs => eff w (py_require_taxon lower casefold w (VLabel l) (cs_val cs)) v_tax
   | RemoveTaxon t => eff w (py_remove_taxon w (VTaxon t)) v_unit
-  | RemoveLabel l cs first => eff w (py_remove_taxon_label lower w (VLabel l) (cs_val cs) (VBool first)) v_unit
-  | DiscardLabel l cs first => eff w (py_discard_taxon_label lower w (VLabel l) (cs_val cs) (VBool first)) v_unit
+  | RemoveLabel l cs first => eff w (py_remove_taxon_label lower casefold w (VLabel l) (cs_val cs) (VBool first)) v_unit
+  | DiscardLabel l cs first => eff w (py_discard_taxon_label lower casefold w (VLabel l) (cs_val cs) (VBool first)) v_unit
   | Clear => eff w (py_clear w) v_unit
   | Sort reverse => eff w (py_sort w VNone (VBool reverse)) v_unit
   | Reverse => eff w (py_reverse w) v_unit
-  | GetTaxon l cs => pur w (py_get_taxon lower w (VLabel l) (cs_val cs)) v_tax
-  | FindAll l cs => pur w (py_findall lower w (VLabel l) (cs_val cs)) v_taxa
-  | HasLabel l cs => pur w (py_has_taxon_label lower w (VLabel l) (cs_val cs)) v_bool
-  | HasLabels ls cs => pur w (py_has_taxa_labels lower w (VList (map VLabel ls)) (cs_val cs)) v_bool
-  | GetTaxa ls cs first => pur w (py_get_taxa lower w (VList (map VLabel ls)) (cs_val cs) (VBool first)) v_taxa
+  | GetTaxon l cs => pur w (py_get_taxon lower casefold w (VLabel l) (cs_val cs)) v_tax
+  | FindAll l cs => pur w (py_findall lower casefold w (VLabel l) (cs_val cs)) v_taxa
+  | HasLabel l cs => pur w (py_has_taxon_label lower casefold w (VLabel l) (cs_val cs)) v_bool
+  | HasLabels ls cs => pur w (py_has_taxa_labels lower casefold w (VList (map VLabel ls)) (cs_val cs)) v_bool
+  | GetTaxa ls cs first => pur w (py_get_taxa lower casefold w (VList (map VLabel ls)) (cs_val cs) (VBool first)) v_taxa
   | TaxonBitmask t => eff w (py_taxon_bitmask w (VTaxon t)) v_int
-  | TaxaBitmask ts => eff w (py_taxa_bitmask lower w (VKw [("taxa"%string, VList (map VTaxon ts))])) v_int
+  | TaxaBitmask ts => eff w (py_taxa_bitmask lower casefold w (VKw [("taxa"%string, VList (map VTaxon ts))])) v_int
   | AllBitmask => pur w (py_all_taxa_bitmask w) v_int
   | BitmaskTaxa m => pur w (py_bitmask_taxa_list w (VInt m) (VInt 0)) v_taxa
   | AccIndex t => pur w (py_accession_index w (VTaxon t)) v_int
